@@ -13,7 +13,7 @@ T = {
  'listen-in-loop': ('X is 0\nWhile X is less than 2\nBuild X up\nListen to L\nsay L\n\nsay "end"\n', {}),
  'error-between': ('say "a"\nListen to X\nsay Zed plus 9001\nsay "b"\nListen to Y\n', {'n1': {}}),
 }
-BOUNDS = {'generated programs': 'every sequence of <= 2 (thorough 3) I/O statements out of 20: {say constant, say X, Listen to X, Listen} x {bare, in a taken branch, in a 2-pass loop, in a function called as a statement, in a function called inside an expression}, then X is printed; input 0..=2 lines (opaque strings; and, for sequences of <= 1 (thorough 2), a bounded first line of 0..=2 symbolic characters incl. blanks, CR and multi-byte characters, further lines constant), a single line with / without terminator; one fault plan per path: output fails from call k on, or input fails from call k on, or no fault',
+BOUNDS = {'generated programs': 'every sequence of <= 2 (thorough 3) I/O statements out of 20: {say constant, say X, Listen to X, Listen} x {bare, in a taken branch, in a 2-pass loop, in a function called as a statement, in a function called inside an expression}, then X is printed; input 0..=2 lines (opaque strings; and, for sequences of <= 1 (thorough 2), a bounded first line of 0..=2 symbolic characters incl. blanks, CR and multi-byte characters, further lines constant), a single line with / without terminator; one fault plan per path: output fails from call k on (returning an error, or accepting no more bytes: Ok(0)), or input fails from call k on, or no fault; the order of all stream calls is compared too',
           'programs': 'plus the %d templates of this file' % len(T), 'input': '0..=3 input lines of any text without line feed, the last with or without terminator (fewer lines than `listen`s: end of input)',
           'faults': 'the output stream fails from its k-th call on for every k (or never); likewise the input stream', 'observables': 'every write call and its text, every read call, the outcome'}
 OUTSIDE = ['byte-level behaviour of BufReader / writeln! (std)', 'carriage returns', 'the CLI wiring (C20)']
@@ -79,11 +79,11 @@ def h_ioshape(vm, mir, chunk, bounded):
             real.append(BStr(Buf(b.buf.cps + ([10] if term else []), b.buf.widths + ([1] if term else []))))
         else: stdin.append((str_hole(vm, f'line{k}'), term))
     max_out, max_in = chunk[i][1]['out_calls'], chunk[i][1]['in_calls']      # a fault at a later call index never happens
-    plans = [(None, None)] + [(k, None) for k in range(max_out)] + [(None, k) for k in range(max_in)]
-    of, inf = plans[vm.fork(len(plans), note='fault-plan')]
+    plans = [(None, None, 'error')] + [(k, None, 'error') for k in range(max_out)] + [(k, None, 'zero') for k in range(max_out)] + [(None, k, 'error') for k in range(max_in)]
+    of, inf, mode = plans[vm.fork(len(plans), note='fault-plan')]
     d0 = describe_holes({}, stdin)
-    vm.describe = lambda m: dict(d0(m), program=text, out_fail_at=of, in_fail_at=inf)
-    return run_both(vm, mir, prog, stdin, of, inf, describe=vm.describe, real_lines=(real if bounded else None))
+    vm.describe = lambda m: dict(d0(m), program=text, out_fail_at=of, in_fail_at=inf, out_fail_mode=mode)
+    return run_both(vm, mir, prog, stdin, of, inf, describe=vm.describe, real_lines=(real if bounded else None), out_fail_mode=mode)
 
 
 def jobs(ctx, tier):
